@@ -79,6 +79,8 @@ pub const DICTIONARY: &[&str] = &[
     "{}", "{0}", "{name}", "{subpath}", "{version}", "{namespace}", "{qualifiers}", "{type}", "%s", "$1", "\\1", "{{", "}}",
     // markers other tools strip: aliases, suffixes, wrappers, one layer at a time
     "npm:", "npm:npm:", ".git", ".git/", ".git//", "[[", "]]", "[[1]]", "vv", "((", "))", "\"\"", "''", "00", "000", "#sha256=ab", "#egg=x", "dist/", "/.git",
+    // packaging / archive words a coordinate parser would peel off
+    "ear", "aar", "zip", "tgz", "whl", "nupkg", "crate", "gem", "test-jar", "tests", "maven-plugin", "bundle",
 ];
 
 /// Versions in the notations of the ecosystems (what a version-normalising special case would
